@@ -43,6 +43,12 @@ KINDS = {
     "overflow-byte-add": ([("decl", "by", "byte", ("lit", "byte", 255), ())], ("decl", "v", None, ("bin", "+", V("by"), V("by")), ())),
     "overflow-neg": ([("decl", "mn", None, ("bin", "-", ("bin", "-", I(0), I(2147483647)), V("a")), ())], ("decl", "v", None, ("neg", V("mn")), ())),
     "shift-amount": ([], ("decl", "v", None, ("bin", "<<", V("a"), ("bin", "+", V("a"), I(40))), ())),
+    "str-substring-range": ([("decl", "s", None, S("abc"), ())], ("decl", "v", None, ("mcall", V("s"), "substring", [I(1), ("bin", "+", V("a"), I(8))]), ())),
+    "str-insert-range": ([("decl", "s", None, S("abc"), ())], ("decl", "v", None, ("mcall", V("s"), "insert", [S("x"), ("bin", "+", V("a"), I(8))]), ())),
+    "parse-radix": ([("decl", "s", None, S("12"), ())], ("decl", "v", None, ("mcall", V("s"), "parse_int_radix", [("bin", "+", V("a"), I(98))]), ())),
+    "to-byte-conversion": ([("decl", "big", None, I(300), ())], ("decl", "v", None, ("mcall", ("bin", "+", V("big"), V("a")), "to_byte", []), ())),
+    "to-int-conversion": ([("decl", "bb", "bigint", ("lit", "bigint", 2 ** 40), ())], ("decl", "v", None, ("mcall", ("bin", "+", V("bb"), V("a")), "to_int", []), ())),
+    "pow-negative": ([], ("decl", "v", None, ("mcall", ("bin", "+", V("a"), I(1)), "pow", [("bin", "-", I(0), V("a"))]), ())),
     "list-remove": ([("decl", "l", ("list", "int"), ("list", [I(1)]), ())], ("decl", "v", None, ("mcall", V("l"), "remove", [("bin", "+", V("a"), I(5))]), ())),
 }
 ELEMS = ["F", "C", "M", "CB"]
